@@ -79,6 +79,9 @@ type loginPlan struct {
 	GapMs int `json:"gap_ms,omitempty"`
 	// CancelAtMs (C08): the caller cancels Login's context at that simulated time (the deadline stays at 30 s).
 	CancelAtMs int `json:"cancel_at_ms,omitempty"`
+	// Relogin (C09): when Login has returned, it is called once more on the same channel and connection; the server
+	// answers that second attempt with the valid script. Nothing random may be used twice.
+	Relogin bool `json:"relogin,omitempty"`
 	// ReusePlain (C09): the login configuration object is first used for a login WITHOUT password encryption on
 	// another connection (first connection of the run, valid plain script), then switched back to encryption and
 	// used for the login under test: nothing of the first use may leak into the second.
@@ -515,6 +518,7 @@ type loginObs struct {
 	prime      *loginObs
 	conn       *tds.Conn
 	capsLater  string
+	relogin    *loginObs
 	plainErr   error
 	plainSent  []ClientMsg
 }
@@ -573,10 +577,21 @@ func runLogin(p *loginPlan, schedSeed uint64, replay []simrt.Choice, lenient, ke
 				endNow()
 			}
 		}
+		logins := 0
 		pr.OnMsg = func(m *ClientMsg) {
 			switch {
 			case len(m.Body) == 2 && m.Body[0] == 0x71 && m.Type != peer.BufLogin: // logout (token and options byte)
 				pr.SendPackets(peer.Packetise(peer.Done(0, 0, 0), nil, peer.BufResponse, 0, true))
+			case p.Relogin && m.Type == peer.BufLogin && m.Index > 0:
+				// a second login attempt on this connection: answered with the valid script
+				logins++
+				q := *p
+				q.Phase1, q.Phase2 = loginBase(p.Encrypted)
+				q.Trunc1, q.Trunc2, q.Cuts1, q.Cuts2, q.EndKind = -1, -1, nil, nil, ""
+				p = &q
+				reply(p.Phase1, p.Trunc1, p.Cuts1, !p.Encrypted)
+			case p.Relogin && logins > 0 && p.Encrypted:
+				reply(p.Phase2, p.Trunc2, p.Cuts2, true)
 			case m.Index == 0:
 				if f, _, err := parseLoginRecord(m.Body); err == nil {
 					switch user := string(f["lusername"].value); {
@@ -680,6 +695,13 @@ func runLogin(p *loginPlan, schedSeed uint64, replay []simrt.Choice, lenient, ke
 		}
 		obs.loginErr = ch.Login(ctx, lc)
 		obs.returnedAt = simrt.SimNow()
+		if p.Relogin && obs == mainObs {
+			obs.relogin = &loginObs{}
+			simrt.Record("second-login-attempt", "", "", 0)
+			ctx2, cancel2 := simrt.WithTimeout(context.Background(), 30*time.Second)
+			obs.relogin.loginErr = ch.Login(ctx2, lc)
+			cancel2()
+		}
 		obs.conn = conn
 		if obs.loginErr == nil {
 			obs.capsDiff = capsDiffOf(conn)
@@ -743,6 +765,17 @@ func runLogin(p *loginPlan, schedSeed uint64, replay []simrt.Choice, lenient, ke
 	if p.Twin {
 		twin.randLog = obs.randLog
 		obs.twin = twin
+	}
+	if obs.relogin != nil {
+		// split what the main connection received at the second login record
+		for i, m := range obs.sent {
+			if i > 0 && m.Type == peer.BufLogin {
+				obs.relogin.sent = obs.sent[i:]
+				obs.sent = obs.sent[:i]
+				break
+			}
+		}
+		obs.relogin.randLog = obs.randLog
 	}
 	return obs, out, pr
 }
@@ -1140,7 +1173,10 @@ func (c09) Gen(r *Rand, idx int, tier string) interface{} {
 			p.TwinRemotePw = append(p.TwinRemotePw, hexOf(marker(pwLen())))
 		}
 	}
-	if encrypted && !p.Twin && r.Pct(12) {
+	if encrypted && !p.Twin && r.Pct(10) {
+		p.Relogin = true
+		p.Edit += " + second login attempt on the same connection"
+	} else if encrypted && !p.Twin && r.Pct(12) {
 		p.ReusePlain = true
 		p.Edit += " + configuration used for a plain login first"
 	}
@@ -1419,8 +1455,10 @@ func (c09) Run(plan interface{}, schedSeed uint64, replay []simrt.Choice, lenien
 	}
 	// random values used by any login of the run: each OAEP seed and each session key must be a draw of its own
 	seeds := map[string]bool{}
+	var reloginObs *loginObs
 	judge := func(obs *loginObs, passwordHex string, remotePwHex []string, user string) {
 		isTwin := strings.HasPrefix(user, "twin_")
+		isRelogin := obs == reloginObs && obs != nil
 		pw := unhex(passwordHex)
 		var secrets [][]byte
 		secrets = append(secrets, pw)
@@ -1578,6 +1616,10 @@ func (c09) Run(plan interface{}, schedSeed uint64, replay []simrt.Choice, lenien
 			// remote servers: the first pair is ("", account password), then the configured ones
 			rn := append([]string{""}, p.RemoteN...)
 			rp := append([][]byte{pw}, secrets[1:]...)
+			if isRelogin {
+				rn = append([]string{""}, rn...)
+				rp = append([][]byte{pw}, rp...)
+			}
 			if p.ReusePlain {
 				// Login prepends the ("", account password) pair to the configuration's list every time it is used:
 				// a configuration used twice carries the pair twice. Both copies are judged like any other secret.
@@ -1664,6 +1706,11 @@ func (c09) Run(plan interface{}, schedSeed uint64, replay []simrt.Choice, lenien
 				v.Violate("false-failure", "login with these secrets failed on a valid acceptance", "edit [%s], encrypted=%v, key %d bits, nonce %d, password %q, %d remote servers: Login returned %v", p.Edit, p.Encrypted, p.KeyBits, p.NonceLen, unhex(p.Password), p.Remote, o.loginErr)
 			}
 		}
+	}
+	if obs.relogin != nil && v.Class == "" && len(obs.relogin.sent) > 0 {
+		v.Probe("second-login-on-the-same-connection")
+		reloginObs = obs.relogin
+		judge(obs.relogin, p.Password, p.RemotePw, p.User)
 	}
 	if obs.twin != nil && v.Class == "" {
 		v.Probe("concurrent-logins")
